@@ -105,7 +105,8 @@ Step(o, c, outF, outE, st2) ==
      /\ obj' = [obj EXCEPT ![o] = [st2 EXCEPT !.nf = nfN, !.ne = neN]]
      /\ BumpIf(sF, 1) /\ BumpIf(sE, 2) /\ BumpIf(sF /\ st.copied, 3) /\ BumpIf(sF /\ st.wasReset, 4)
      /\ BumpIf(sE /\ "fmt" \in DOMAIN c /\ trE[kE].fmt # c.fmt, 5)
-     /\ BumpIf(~eqF \/ ~eqE, 6)
+     /\ BumpIf((CheckC12 /\ ~eqF) \/ (CheckC13 /\ ~eqE /\ eqF), 6)
+     /\ IF (CheckC12 /\ ~eqF) \/ (CheckC13 /\ ~eqE /\ eqF) THEN PrintT(<<"TOLERATED", l>>) ELSE TRUE
 
 TCtl ==
   /\ More /\ Ev.k = "T" /\ Ev.o \in Slots /\ obj[Ev.o].live
@@ -123,7 +124,8 @@ TEncode ==
   /\ More /\ Ev.k = "E" /\ Ev.o \in Slots /\ obj[Ev.o].live /\ obj[Ev.o].kind \in EncKinds
   /\ LET e == Ev
          c == [op |-> "run", fmt |-> e.fmt, sig |-> e.sig, k0 |-> e.k0, n |-> e.n, fd |-> e.fd, maxb |-> e.maxb, xd |-> e.xd]
-         out == [rc |-> e.rc, len |-> e.len, rng |-> e.rng, ds |-> e.ds, lens |-> e.lens]
+         \* d digests the per-call digests (bytes + length + final range of every packet) and the lengths
+         out == [rc |-> e.rc, len |-> e.len, rng |-> e.rng, d |-> e.d]
      IN Step(e.o, c, out, out, obj[e.o])
   /\ l' = l + 1
 
@@ -132,8 +134,10 @@ TDecode ==
   /\ LET e == Ev
          st == obj[e.o]
          c == [op |-> "run", fmt |-> e.fmt, pd |-> e.pd, n |-> e.n, mode |-> e.mode, fs |-> e.fs]
-         outF == [rc |-> e.rc, cnts |-> e.cnts, rngs |-> e.rngs, ds |-> e.ds]
-         outE == [rc |-> e.rc, cnts |-> e.cnts, rngs |-> e.rngs, sds |-> e.sds]
+         \* dF digests (PCM of every call, sample counts, final ranges); dE the same of the float twin, which is what
+         \* objects in different formats have in common once the event's own relations (rel) hold
+         outF == [rc |-> e.rc, d |-> e.dF]
+         outE == [rc |-> e.rc, d |-> e.dE]
          sov2 == st.sov \/ e.sover > 0
          rel == /\ e.cnts = e.scnts /\ e.rngs = e.srngs           \* same sample count and final range as the float twin
                 /\ IF st.kind = "P" THEN (sov2 \/ ProjectionOK(e.fmt, e)) /\ (e.fmt = "f32" => e.ds = e.sds)
